@@ -256,6 +256,9 @@ def new_target(rng, t, kind, src):
     p = src @ L.T + rng.uniform(-5, 5, d) + rng.normal(scale=[0, 0.01, 0.5, 1.0][rng.integers(0, 4)], size=src.shape)
     if kind == "ThinPlateSplines":
         p = src + rng.normal(scale=0.6, size=src.shape) + rng.uniform(-2, 2, d)
+    elif kind in ("AlignmentTranslation", "AlignmentSimilarity") and rng.random() < 0.15:
+        # a target in map coordinates (hundreds of kilometres from the origin, in metres)
+        p = p + rng.choice([-1.0, 1.0], d) * rng.uniform(1e5, 9e5, d)
     elif kind in ("AlignmentUniformScale", "AlignmentSimilarity", "AlignmentAffine", "AlignmentTranslation") and rng.random() < 0.12:
         # the target in a very different unit from the source (kilometres against micrometres): a legal, tiny or huge, scale
         p = p * 10.0 ** (rng.uniform(9, 13) * rng.choice([-1.0, 1.0]))
@@ -269,6 +272,9 @@ def audit_live(ctx, live, just_retargeted):
     """Every live object (copies included) still is the alignment of its source to its *own* target."""
     for o in live:
         if o is just_retargeted or id(o) not in align.SHADOW or id(o) in UNRETARGETED_INVERSES:
+            continue
+        if np.asarray(o.source.points).dtype == np.float32 or np.asarray(o.target.points).dtype == np.float32:
+            ctx.bump("single_precision_objects_not_audited")       # (a fresh fit of single-precision point sets agrees to single precision only)
             continue
         with taps.quiet():
             try:
@@ -337,6 +343,9 @@ def w_history(ctx, rng, i):
             tg = ms.PointCloud(np.round(tg.points * 3).astype(np.int64))
         if rng.random() < 0.25:
             s = ms.PointCloud(np.round(s.points * 3).astype(np.int64))
+        if rng.random() < 0.2:
+            # built from single-precision point sets (a float32 pipeline); later targets are ordinary doubles, anywhere
+            s, tg = ms.PointCloud(np.asarray(s.points, dtype=np.float32)), ms.PointCloud(np.asarray(tg.points, dtype=np.float32))
         if kind == "AlignmentSimilarity":
             opts = {"rotation": gen.flag(rng, 0.6), "allow_mirror": gen.flag(rng, 0.5)}
             if rng.random() < 0.5:
